@@ -34,12 +34,14 @@ CL = {2301: 'the tables were accepted / refused against the rule',
       2303: 'nodes of a level differ from the spec', 2304: 'children of a node differ from the spec',
       2305: 'cells of a leaf differ from the spec', 2306: 'name table differs from the membership rows',
       2307: 'alias table differs from the membership rows', 2308: 'level-name table differs from the membership rows'}
-DEFECTS = ['none', 'none', 'none', 'parent_level', 'level_two_names', 'missing_level', 'label_two_aliases',
+DEFECTS = ['none', 'none', 'none', 'parent_level', 'parent_empty', 'level_two_names', 'missing_level', 'label_two_aliases',
            'label_two_names', 'alias_twice', 'name_twice', 'cell_twice', 'alias_unknown', 'empty_leaf',
            'two_parents']
 
 
 def lev_s(l):
+    if l == -1:
+        return ''                          # a term whose parent columns are empty
     return f'TS{l}' if l else 'OTHERSET'
 
 
@@ -89,6 +91,8 @@ def gen_case(rng, i):
         r['plev'] = hier[0] if r['plev'] != hier[0] else 0
     elif defect == 'parent_level':
         rng.choice(ann)['plev'] = 0
+    elif defect == 'parent_empty':
+        rng.choice(ann)['plev'] = -1
     elif defect == 'level_two_names':
         r = dict(rng.choice(mem))
         r['levname'] += 50
